@@ -172,6 +172,10 @@ class Check:
     def harness(self, name, fn, **kw):
         self.jobs.append(('harness', name, fn, kw))
 
+    def external(self, name, fn):
+        """fn(chk) -> harness record dict (name/paths/obligations/discharged/queries/status[/why]/confirmed/unconfirmed)"""
+        self.jobs.append(('external', name, fn, {}))
+
     def validation(self, name, fn):
         """fn(chk) performs chk.validate(...) calls; runs as one parallel job"""
         self.jobs.append(('validation', name, fn, {}))
@@ -284,6 +288,14 @@ class Check:
                 h = {'name': name, 'paths': 0, 'obligations': 0, 'discharged': 0, 'regions': {}, 'status': 'inconclusive',
                      'why': 'harness crashed: ' + ''.join(traceback.format_exception_only(type(e), e)).strip() + ' @ ' +
                      ' <- '.join(f'{f.name}:{f.lineno}' for f in traceback.extract_tb(e.__traceback__)[-4:]),
+                     'queries': 0, 'wall_s': 0, 'confirmed': [], 'unconfirmed': []}
+            out = {'kind': 'harness', 'h': h}
+        elif kind == 'external':
+            try:
+                h = fn(self)
+            except Exception as e:
+                h = {'name': name, 'paths': 0, 'obligations': 0, 'discharged': 0, 'regions': {}, 'status': 'inconclusive',
+                     'why': 'external engine crashed: ' + repr(e) + ' @ ' + ' <- '.join(f'{f.name}:{f.lineno}' for f in traceback.extract_tb(e.__traceback__)[-4:]),
                      'queries': 0, 'wall_s': 0, 'confirmed': [], 'unconfirmed': []}
             out = {'kind': 'harness', 'h': h}
         else:
